@@ -1,6 +1,6 @@
 """Which units decide which property (DESIGN.md sections 1, 5)."""
 
-VERUS_UNITS = ['U-FMT', 'U-REACH', 'U-COMPACTAS', 'U-SANITY', 'U-RESOLVE', 'U-CONTAINS', 'U-CALLS', 'U-DESCR', 'U-DERIVES', 'U-MIXED', 'U-BUILDERS', 'U-SUBST', 'U-VALIDATE']
+VERUS_UNITS = ['U-FMT', 'U-REACH', 'U-COMPACTAS', 'U-SANITY', 'U-RESOLVE', 'U-CONTAINS', 'U-CALLS', 'U-DESCR', 'U-DERIVES', 'U-MIXED', 'U-BUILDERS', 'U-SUBST', 'U-VALIDATE', 'U-FLATTEN']
 
 PROPS = {
     'C15': {
@@ -21,14 +21,15 @@ PROPS = {
     },
     'C08': {
         'level': 'proof',
-        'verus': ['U-REACH', 'U-COMPACTAS', 'U-DERIVES'],
+        'verus': ['U-REACH', 'U-COMPACTAS', 'U-DERIVES', 'U-FLATTEN'],
         'kani': ['uint_predicate_table', 'compact_as_unnamed_upto3'],
         'trusted_base': ['Verus 0.2026.09.13, Z3, rustc 1.98.1'],
         'assumptions': [
             'precondition closed(R): every id mentioned by a registry entry resolves (DESIGN.md section 3 clause 2)',
+            'flatten_recursive_derives: precondition ids consistent (id == position; generate_types_mod runs sanity_pass first); ASSUMED std contracts (vx/prelude/flatten_shim.rs): HashMap<syn::TypePath,_> / HashMap<u32,_> as mathematical maps (is_empty, get, remove, entry(k).or_default(), consuming iteration = every entry exactly once), HashSet extend = union / clone = identity, consuming iteration over HashSet<u32> = every member exactly once, derived Default of Derives = two empty sets; the statement building syn_path_for_id (syn_type_path over the registry) is abstracted (R8\'\'): the contract is relative to that id -> path map',
         ],
         'not_covered': [
-            'merging the id sets into the path-keyed derive map (flatten_recursive_derives lines 94-143: syn + HashMap)',
+            'flatten_recursive_derives: how the id -> syn path map is computed (syn_type_path; abstracted), and which of several registry types sharing one path counts as the root of a recursive registration (the contract allows the first or all)',
             'derive/attribute token emission (Derives::to_tokens)',
             'that create_type_ir calls the CompactAs predicate and resolve (upcast_composite, resolve, add_as_compact_derive are under contract; create_type_ir reaches syn)',
         ],
@@ -109,7 +110,7 @@ PROPS = {
     },
     'C16': {
         'level': 'proof',
-        'verus': ['U-BUILDERS', 'U-DERIVES', 'U-SUBST'],
+        'verus': ['U-BUILDERS', 'U-DERIVES', 'U-SUBST', 'U-FLATTEN'],
         'kani': [],
         'trusted_base': ['Verus 0.2026.09.13, Z3, rustc 1.98.1'],
         'assumptions': [
@@ -117,7 +118,6 @@ PROPS = {
         ],
         'not_covered': [
             'of the second sentence of C16: TypeSubstitutes::extend (generic iterator loop), which insertions are rejected and with which error kind, and that generic arguments of the source path are ignored (parse_path_substitution / absolute_path: syn::Path surgery, opaque here)',
-            'flatten_recursive_derives (how the recursive registrations reach the descendants): syn + HashMap + iterator chains',
         ],
     },
 }
